@@ -207,11 +207,17 @@ func (r *Report) FinishNoExit() int {
 	for _, s := range ksigs {
 		fmt.Printf("KNOWN-FINDING: property=%s %s [sig=%s]\n", r.ID, known[s].Text, s)
 	}
-	os.MkdirAll(filepath.Join(Root, "replays"), 0o755)
+	// runs against a scratch copy of martian (VERIF_REPO=..., development aid) must not overwrite the real
+	// evidence and replays
+	outRoot := Root
+	if os.Getenv("VERIF_ALT_REPO") != "" {
+		outRoot = filepath.Join(Root, ".build", "alt-out")
+	}
+	os.MkdirAll(filepath.Join(outRoot, "replays"), 0o755)
 	for _, sig := range unknown {
 		v := r.violations[sig]
 		h := sha1.Sum([]byte(sig))
-		path := filepath.Join(Root, "replays", fmt.Sprintf("%s-%s.json", r.ID, hex.EncodeToString(h[:5])))
+		path := filepath.Join(outRoot, "replays", fmt.Sprintf("%s-%s.json", r.ID, hex.EncodeToString(h[:5])))
 		b, _ := json.MarshalIndent(map[string]interface{}{"property": r.ID, "sig": sig, "count": len(v), "first": v[0]}, "", " ")
 		os.WriteFile(path, b, 0o644)
 		fmt.Printf("VIOLATION property=%s replay=%s\n", r.ID, path)
@@ -248,9 +254,9 @@ func (r *Report) FinishNoExit() int {
 	if ev["assumptions"] == nil {
 		ev["assumptions"] = []string{}
 	}
-	os.MkdirAll(filepath.Join(Root, "evidence"), 0o755)
+	os.MkdirAll(filepath.Join(outRoot, "evidence"), 0o755)
 	b, _ := json.MarshalIndent(ev, "", " ")
-	if err := os.WriteFile(filepath.Join(Root, "evidence", r.ID+".json"), b, 0o644); err != nil {
+	if err := os.WriteFile(filepath.Join(outRoot, "evidence", r.ID+".json"), b, 0o644); err != nil {
 		fmt.Fprintf(os.Stderr, "cannot write evidence: %v\n", err)
 		return 2
 	}
